@@ -19,6 +19,8 @@ xtuml.ModelLoader) + a generated OAL program + keyword arguments, run through
               driver and stores it in the case ('expect') so that the comparison in `run_impl` yields a concrete
               failing program; the runner repeats the comparison against the driver as K.
 """
+import gc
+
 import gen_oal_prog as G
 import oal_sexp
 from sexp import Sym, dumps, loads
@@ -37,7 +39,10 @@ RULE = ('type-directed random OAL programs (quick: 3000 programs, <= 25 generate
         'a program that fails half way (8 kinds of failure without an effect of their own) followed by the same program '
         'without the failure and further programs; the reference runs the failing program without the failing statement, '
         'the outcome of the failing run is not compared, the return values and the population after it are; a family holds '
-        'an instance set across creates / deletes inside the loop over it')
+        'an instance set across creates / deletes inside the loop over it; a fifth of the sessions are CHURN sessions: loops '
+        'that create, relate and conditionally delete, delete-all (for each / select any in a while loop), re-creation and '
+        're-relating of instances of the same classes, garbage collected between the programs (a deleted instance must not '
+        'be remembered by anything a new instance can share with it)')
 EXHAUSTIVE = {'quick': False, 'thorough': False}
 ASSUMPTIONS = ['programs are type-correct, terminating and error-free (apart from division by zero, which is compared) under the reference semantics (membership decided by Spec)',
                'reals, events, index access, set operators and referential-attribute access are not generated',
@@ -68,7 +73,10 @@ def setup(ctx):
     _CTX, _xtuml, _interpret, _oal = ctx, xtuml, interpret, oal
     _SCHEMA_SQL = G.schema_sql()
     import logging
-    interpret.logger.setLevel(logging.CRITICAL + 1)      # the programs that fail half way log what ActionWalker.accept swallows
+    # the programs that fail half way log what ActionWalker.accept swallows: silenced by logger NAME (the package loggers;
+    # the module loggers below them inherit the level), never through a module attribute of the code under test
+    for name in ('bridgepoint', 'xtuml'):
+        logging.getLogger(name).setLevel(logging.CRITICAL + 1)
     install_tracer(interpret, oal)
 
 
@@ -398,6 +406,51 @@ def flag_out_of_fuel(ctx):
                          % (PROP, n, FUEL))
 
 
+def churn_session(r, prog, kwargs):
+    """create / relate / DELETE / create again: instances are deleted, the last reference to them is dropped (variables
+    rebound in a loop, programs ended; the harness collects garbage between the programs and returns integers only), and
+    further instances of the SAME class are created and related.  Nothing may remember a deleted instance by anything a
+    new instance can share with it (its address, the position in a pool): every later relate has to be accepted and every
+    link has to be there at the end."""
+    var, num = (lambda n: ['var', n]), (lambda n: ['int', n])
+    rel, src, tgt = r.choice([('R1', 'B', 'A'), ('R2', 'B', 'A'), ('R1', 'B', 'A')])
+
+    def counts():
+        return [['select_from', 'many', 'qas', 'A', None], ['select_from', 'many', 'qbs', 'B', None],
+                ['return', ['bin', '+', ['bin', '*', ['un', 'cardinality', var('qas')], num(100)], ['un', 'cardinality', var('qbs')]]]]
+
+    def loop(n, victim, parity):
+        # a loop that creates, relates and conditionally deletes: the variables are rebound in every round
+        body = [['create', 'qa', 'A'], ['create', 'qb', 'B'], ['relate', 'qb', 'qa', rel, ''],
+                ['if', ['bin', '==', ['bin', '%', var('qi'), num(2)], num(parity)], [['delete', victim]], [], None],
+                ['assign', 'qi', ['bin', '+', var('qi'), num(1)]]]
+        return [['assign', 'qi', num(0)], ['while', ['bin', '<', var('qi'), num(n)], body]] + counts()
+
+    def wipe(cls, how):
+        if how == 'foreach':
+            return [['select_from', 'many', 'qxs', cls, None], ['foreach', 'qx', 'qxs', [['delete', 'qx']]]] + counts()
+        # delete all via `select any` in a while loop
+        return [['select_from', 'any', 'qx', cls, None],
+                ['while', ['un', 'not_empty', var('qx')], [['delete', 'qx'], ['select_from', 'any', 'qx', cls, None]]]] + counts()
+
+    def fill(n):
+        out = []
+        for j in range(n):
+            out += [['create', 'qa%d' % j, 'A'], ['create', 'qb%d' % j, 'B'], ['relate', 'qb%d' % j, 'qa%d' % j, rel, ''],
+                    ['setattr', var('qa%d' % j), 'n', num(40 + j)]]
+        return out + counts()
+
+    steps = [loop(r.randint(3, 6), r.choice(['qa', 'qb']), r.randint(0, 1)),
+             wipe(r.choice(['A', 'B']), r.choice(['foreach', 'while'])),
+             fill(r.randint(2, 4)),
+             wipe(r.choice(['A', 'B']), r.choice(['foreach', 'while'])),
+             loop(r.randint(3, 6), r.choice(['qa', 'qb']), r.randint(0, 1)),
+             fill(r.randint(2, 4))]
+    if r.random() < 0.5:
+        steps = steps[r.randint(0, 2):]
+    return [(p, kwargs, None) for p in steps] + [(prog, kwargs, None)]
+
+
 def gen_session(r, prog, params, kwargs, max_stmts, max_depth):
     """-> ([(program, kwargs, failing tail or None)], kind)"""
     def another(tag, mutate=True, stmts=None):
@@ -405,6 +458,9 @@ def gen_session(r, prog, params, kwargs, max_stmts, max_depth):
                       params=params, allow_mutation=mutate, allow_delete=mutate)
         return g.gen_program()
     k = r.random()
+    if k < 0.2:
+        return churn_session(r, prog, kwargs), 'churn'
+    k = (k - 0.2) / 0.8
     if k < 0.25:
         # the same program twice: its creates / deletes / relates change what its selects see the second time
         return [(prog, kwargs, None), (prog, kwargs, None)], 'same_twice'
@@ -445,6 +501,9 @@ def run_impl(case):
         if case.get('steps'):
             values = []
             for st in case['steps']:
+                # nothing of an earlier program may be kept alive by the harness: what a program deleted and no longer
+                # refers to is gone before the next program runs
+                gc.collect()
                 try:
                     v = _interpret.run_function(m, label, st['text'], dict(st['kwargs']))
                 except Exception:
